@@ -109,6 +109,7 @@ def check_c19(run: Run, prog: Program) -> None:
     n4 = dunder.rule_tables(run, prog)
     n5 = dunder.rule_dispatch_flow(run, prog)
     n6 = dunder.rule_V1(run, prog)
+    dunder.rule_V4(run, prog)
     run.floor("super() call sites", n1, 30)
     run.floor("operator presence obligations", n3, 50)
     run.floor("dispatch table entries", n4, 20)
@@ -133,6 +134,7 @@ def check_c04(run: Run, prog: Program) -> None:
     n2 = kinds.rule_K2(run, prog)
     kinds.rule_K2e(run, prog)
     n5 = kinds.rule_K5(run, prog)
+    kinds.rule_K6(run, prog)
     run.floor("concrete collection classes", n1, 5)
     run.floor("element access obligations", n2, 5)
     run.stats.update({"collection_classes": n1, "element_access": n2, "empty_buffers": n5})
@@ -147,11 +149,14 @@ def check_c14(run: Run, prog: Program) -> None:
     run.clause = (
         "decides one clause: 'dual ... works for every quadric class' - every reconstruction type(self)(...) in a method of "
         "the quadric family (dual, and through the call graph is_tangent) is accepted by the constructor of every concrete "
-        "subclass that inherits the method. NOT decided: all numeric clauses (intersection points, tangency, pole/polar "
-        "reciprocity, involution)."
+        "subclass that inherits the method; plus the error discipline of NotReducible (raised, reachable from components, consumed "
+        "only by intersect, raised as soon as one member of a collection is irreducible). NOT decided: all numeric clauses "
+        "(intersection points, tangency, pole/polar reciprocity, involution)."
     )
     quad = prog.cls("QuadricTensor")
     n = kinds.rule_K3(run, prog, family=quad)
+    # the degenerate/irreducible split of intersect: NotReducible must be raised per collection as soon as one member is irreducible
+    _error_rules(run, prog, "NotReducible", ["QuadricTensor.components"])
     nq = len(prog.concrete_subclasses(quad))
     run.floor("concrete quadric classes", nq, 5)
     dual = prog.lookup(quad, "dual")
@@ -259,6 +264,7 @@ def _error_rules(run: Run, prog: Program, exc: str, entries: list[str], payload:
             errors.rule_payload(run, prog, sites)
         if quad:
             errors.rule_predicate_args(run, prog, sites, quad)
+        errors.rule_quantifier(run, prog, sites, exc)
     errors.consumers(run, prog, cg, exc)
     return sites
 
